@@ -15,10 +15,14 @@ from pathlib import Path
 
 ROOT = Path(__file__).resolve().parent.parent
 COQ = ROOT / "coq"
-REPLAYS = ROOT / "replays"
-EVIDENCE = ROOT / "evidence"
 KNOWN = ROOT / "known_findings.json"
-REPO = Path("/repo")
+# Development only (bin/mutcheck: trying a seeded change in a scratch worktree without touching /repo): VERIF_DEV_REPO
+# points the harness at that worktree, VERIF_DEV_OUT receives its replay and evidence files.  The registered commands
+# never set them: they read /repo and write /verif/evidence, /verif/replays.
+REPO = Path(os.environ.get("VERIF_DEV_REPO") or "/repo")
+_OUT = Path(os.environ["VERIF_DEV_OUT"]) if os.environ.get("VERIF_DEV_OUT") else ROOT
+REPLAYS = _OUT / "replays"
+EVIDENCE = _OUT / "evidence"
 
 # axioms of the Coq standard library that a theorem may depend on (each is reported in the evidence)
 STDLIB_AXIOMS = {
@@ -207,7 +211,7 @@ def match_known(ctx: Ctx, failure: dict) -> dict | None:
 
 
 def write_replay(ctx: Ctx, kind: str, payload: dict) -> Path:
-    REPLAYS.mkdir(exist_ok=True)
+    REPLAYS.mkdir(parents=True, exist_ok=True)
     payload = dict(payload)
     if "case" in payload:
         payload["case_py"] = repr(payload["case"])  # exact (JSON turns int keys into strings)
@@ -319,7 +323,7 @@ def finish(ctx: Ctx, proofs: dict) -> int:
 
 
 def write_evidence(ctx: Ctx, proofs: dict, exit_code: int):
-    EVIDENCE.mkdir(exist_ok=True)
+    EVIDENCE.mkdir(parents=True, exist_ok=True)
     mod = ctx.module
     tb = list(getattr(mod, "TRUSTED_BASE", []))
     tb = [
@@ -368,6 +372,6 @@ def assert_impl_from_repo():
     import dictIO
 
     f = str(Path(dictIO.__file__).resolve())
-    if not f.startswith("/repo/src/"):
-        print(f"harness: dictIO imported from {f}, expected /repo/src", file=sys.stderr)
+    if not f.startswith(str(REPO / "src") + "/"):
+        print(f"harness: dictIO imported from {f}, expected {REPO}/src", file=sys.stderr)
         sys.exit(2)
